@@ -349,4 +349,39 @@ theorem run_inv : ∀ (ops : List Op) (s : St), Inv e role [] none s → (∀ op
     intro s hi hok
     exact ih _ (step_inv hi (hok op List.mem_cons_self)) (fun o ho => hok o (List.mem_cons_of_mem _ ho))
 
+theorem step_inv_at {s : St} {op : Op} (hi : Inv e role [] none s) (hok : OpOKAt e role s op) :
+    Inv e role [] none (step e s op).1 := by
+  cases op with
+  | deliver b =>
+    rcases hok with hn | hb
+    · have : step e s (.deliver b) = (s, .processed false 0 (some .notRequested)) := by
+        simp [step, processList, processOne, hn]
+      rw [this]; exact hi
+    · exact step_inv hi hb
+  | addSub root depth parent cb => exact step_inv hi hok
+  | addRaw h depth parent => exact step_inv hi hok
+  | missing max popped => exact step_inv hi hok
+  | process items => exact step_inv hi hok
+  | commit failAt => exact step_inv hi hok
+  | restart => exact step_inv hi hok
+
+theorem run_inv_at : ∀ (ops : List Op) (s : St), Inv e role [] none s → RunOK e role s ops →
+    Inv e role [] none (run e s ops) := by
+  intro ops
+  induction ops with
+  | nil => intro s hi _; exact hi
+  | cons op t ih =>
+    intro s hi hok
+    exact ih _ (step_inv_at hi hok.1) hok.2
+
+theorem runOK_of_opOK : ∀ (ops : List Op) (s : St), (∀ op ∈ ops, OpOK e role op) → RunOK e role s ops := by
+  intro ops
+  induction ops with
+  | nil => intro s _; trivial
+  | cons op t ih =>
+    intro s hok
+    refine ⟨?_, ih _ (fun o ho => hok o (List.mem_cons_of_mem _ ho))⟩
+    have h := hok op List.mem_cons_self
+    cases op <;> first | exact Or.inr h | exact h
+
 end YouVerif.C19
